@@ -6619,6 +6619,11 @@ fn eval_expr(
                 // No more expressions to evaluate in this function, we're returning.
                 let stack_frame = env.current_frame_mut();
                 stack_frame.exprs_to_eval.clear();
+                // We're also leaving every block we were inside. This
+                // matters at the toplevel, where the stack frame
+                // outlives the return.
+                stack_frame.bindings.block_bindings.truncate(1);
+                stack_frame.bindings_next_block.clear();
             } else {
                 env.push_expr_to_eval(
                     ExpressionState::EvaluatedSubexpressions,
